@@ -98,3 +98,19 @@ def random_cases(rng, tier):
 def nontrivial(o):
     c = o["in"]
     return bool(c["src"] and c["tgt"]) if c["kind"] == "lat" else bool(c["ks"] and c["kt"])
+
+MANIFEST = {
+    "text": ("Matching.tla defines the exact rational IoU matrix of two lists of lattice geometries, Pairings (partial injective "
+             "maps over positive entries), OptVal, and the clauses Cover / PositiveOnly / ReportedAffinity / UnpairedZero / "
+             "Optimal. MC_Matching.tla is _select_matches as a state machine (a complete maximum-weight assignment chosen "
+             "nondeterministically among the optimal ones, zero-affinity assignments skipped, leftover rows, leftover columns); "
+             "TLC proves Impl => Cover, PositiveOnly, Optimal on every pair of lists of the bounded universe, the lemma that a best "
+             "complete assignment is worth OptVal, and that the row recursion used by the validator equals OptVal; the algorithm as "
+             "found violates PositiveOnly (spec/history/MC_Matching_prefix). Every enumerated pair of lists (and 3 x 3 lists sampled "
+             "by tlc -simulate) is run through match_geometries and compute_affinity at three dyadic units and TLC validates the "
+             "recorded matches; random lists of arbitrary-double geometries of all kinds are validated against the observed "
+             "affinity matrix."),
+    "note": ("trusted: TLC, binder checks/c07.py (encoder: indices +1, None -> []), exact arithmetic on dyadic units. Lattice "
+             "verdicts are exact (rational sums); on random doubles optimality is decided on affinities floored to 2^-20."),
+    "design_ref": "DESIGN.md section 4 C07",
+}
